@@ -448,15 +448,6 @@ func (h *hist) readTrace() []string {
 	return out
 }
 
-// declared functions for blocks rendered as calls; returns the call text
-func (h *hist) declareFn(g *hc.Gen, l []*lstmt, prelude *[]string, cleanup *[]string) string {
-	h.fnCount++
-	fn := fmt.Sprintf("lf%d", h.fnCount)
-	*prelude = append(*prelude, fmt.Sprintf("DECLARE %s FUNCTION () AS BEGIN %s RETURN NULL; END;", fn, stmtsSQL(g, l)))
-	*cleanup = append(*cleanup, fmt.Sprintf("DISPOSE FUNCTION %s;", fn))
-	return fmt.Sprintf("@s := %s();", fn)
-}
-
 func firstDiff(a, b []string) int {
 	for i := 0; i < len(a) && i < len(b); i++ {
 		if a[i] != b[i] {
@@ -555,18 +546,14 @@ func (h *hist) stepLoop(fixed []*litem, fixedName string, fixedPre []*lstmt, fix
 			continue
 		}
 		gd := "*"
-		switch {
-		case it.guard != 0 && it.call:
-			items = append(items, fmt.Sprintf("IF @n = %d THEN %s END IF;", it.guard, h.declareFn(g, it.stmts, &prelude, &cleanup)))
+		if it.guard != 0 {
 			gd = fmt.Sprint(it.guard)
-		case it.guard != 0:
-			items = append(items, fmt.Sprintf("IF @n = %d THEN %s END IF;", it.guard, stmtsSQL(g, it.stmts)))
-			gd = fmt.Sprint(it.guard)
-		case it.call:
-			items = append(items, h.declareFn(g, it.stmts, &prelude, &cleanup))
-		default:
-			items = append(items, fmt.Sprintf("IF TRUE THEN %s END IF;", stmtsSQL(g, it.stmts)))
 		}
+		form := ""
+		if it.call {
+			form = "call"
+		}
+		items = append(items, h.wrapBlock(form, stmtsSQL(g, it.stmts), it.guard, &prelude, &cleanup))
 		toks = append(toks, "{ "+gd+" "+stmtsTokens(it.stmts, ",")+" }")
 	}
 	decl := ""
@@ -576,7 +563,7 @@ func (h *hist) stepLoop(fixed []*litem, fixedName string, fixedPre []*lstmt, fix
 	loopSQL := fmt.Sprintf("@n := 0; WHILE %s%s IN %s DO @n := @n + 1; %s %s IF @n > %d THEN INSERT INTO lp VALUES ('guard', NULL, NULL); BREAK; END IF; END WHILE; INSERT INTO lp VALUES ('end', NULL, NULL);",
 		decl, vars, name, logRow, strings.Join(items, " "), loopCap+5)
 	if nest {
-		loopSQL = fmt.Sprintf("IF TRUE THEN %s %s %s END IF;", stmtsSQL(g, pre), loopSQL, stmtsSQL(g, post))
+		loopSQL = h.wrapBlock("", strings.TrimSpace(stmtsSQL(g, pre)+" "+loopSQL+" "+stmtsSQL(g, post)), 0, &prelude, &cleanup)
 	}
 	sql := strings.Join(prelude, " ") + " " + loopSQL
 	h.cntBefore = h.cnt()
@@ -599,8 +586,9 @@ func (h *hist) stepLoop(fixed []*litem, fixedName string, fixedPre []*lstmt, fix
 	return true
 }
 
-// stepBlock: the same statements in a nested block (IF TRUE / function call) at top level
-func (h *hist) stepBlock() bool {
+// stepBlock: the same statements in a nested block at top level, opened by any construct of the language (or the given
+// one); afterwards the names it declared are used at top level
+func (h *hist) stepBlock(fixedForm string, fixed []*lstmt) bool {
 	if !h.valid {
 		return false
 	}
@@ -611,10 +599,16 @@ func (h *hist) stepBlock() bool {
 		if try == 25 {
 			return false
 		}
-		focus := h.pickName(false)
-		l = nil
-		for j, m := 0, 2+g.Intn(6); j < m; j++ {
-			l = append(l, h.genStmt(focus))
+		l = fixed
+		if l == nil {
+			focus := h.pickName(false)
+			// half of the blocks declare a cursor of the focus name first: the DECLARE position is the point
+			if g.Intn(2) == 0 {
+				l = append(l, &lstmt{kind: "declare", name: focus, qkind: g.Intn(nQueries), qarg: g.Intn(len(h.t) + 3)})
+			}
+			for j, m := 0, 2+g.Intn(6); j < m; j++ {
+				l = append(l, h.genStmt(focus))
+			}
 		}
 		s = h.newSim()
 		s.push()
@@ -623,26 +617,36 @@ func (h *hist) stepBlock() bool {
 		if !s.bad {
 			break
 		}
+		if fixed != nil {
+			return false
+		}
 	}
 	var prelude, cleanup []string
-	sql := ""
-	if g.Intn(3) == 0 {
-		call := h.declareFn(g, l, &prelude, &cleanup)
-		sql = strings.Join(prelude, " ") + " " + call
-	} else {
-		sql = fmt.Sprintf("IF TRUE THEN %s END IF;", stmtsSQL(g, l))
+	form := fixedForm
+	if form == "" && g.Intn(3) == 0 {
+		form = "call"
 	}
+	sql := h.wrapBlock(form, stmtsSQL(g, l), 0, &prelude, &cleanup)
+	sql = strings.TrimSpace(strings.Join(prelude, " ") + " " + sql)
 	h.cntBefore = h.cnt()
 	err := h.exec(sql)
-	got := h.readTrace()
+	var got []string
+	if !h.hung {
+		got = h.readTrace()
+	}
 	if err != nil {
 		got = append(got, errTok(err))
 	}
-	for _, c := range cleanup {
-		_, _ = h.p.Exec(c)
+	if !h.hung {
+		for _, c := range cleanup {
+			_, _ = h.p.Exec(c)
+		}
 	}
 	h.o.Case("c16.block "+stmtsTokens(l, ","), strings.Join(got, " | "))
 	h.finishProgram("block", s, got, "", nil)
+	if fixed == nil {
+		h.followUps(declaredIn(l), false)
+	}
 	return true
 }
 
